@@ -246,10 +246,18 @@ def mutate_case(rng: random.Random, case):
     c.pop('malformed', None)
     types = c['types']
     until, beh, init = gen_behaviour(rng, types)
-    for i, b in enumerate(beh):
-        # keep async writers' scripts out of the mutation (their slots were chosen against the topology)
-        pass
+    if rng.random() < 0.6:
+        # dense variant: every event output fires on both event attributes (more triggers per run)
+        for b in beh:
+            for spec in b.get('outputs', {}).values():
+                if 'eo' in spec[1] or 'e2' in spec[1]:
+                    spec[1] = sorted(set(spec[1]) | {'eo', 'e2'})
     c['until'], c['beh'], c['init'] = until, beh, init
+    if rng.random() < 0.5 and len(c['edges']) > 2:
+        # simpler topology: drop some connections (other paths often mask the one on which the two sides differ)
+        keep = [e for e in c['edges'] if rng.random() < 0.65]
+        if keep: c['edges'] = keep
+        for b in beh: b.pop('set_data', None)
     r = rng.random()
     if r < 0.35:
         # a same-time loop inside the group of some grouped simulator
